@@ -291,6 +291,8 @@ def run(ctx):
 
     r5(ctx, P)
     r6(ctx, P)
+    ctx.rule("R7", "the printing thread carries no per-file data from one item to the next: printer fields are only latched to a constant, counted up, or are the writer / inner printer")
+    consumer_state(ctx, "R7")
 
 
 # every method of ignore::WalkBuilder (ignore 0.4.23), classified by what the filter looks at
@@ -384,3 +386,74 @@ def r6(ctx, P):
                    "producer-reachable code uses %s: state that outlives one file and is read back — the result for a file can then depend on which files a worker "
                    "(any worker) handled before it, so a tree scan no longer equals the union of its files scanned alone and varies with --threads" % c.best, where=f.loc(c.line))
     ctx.floor("R6", "synchronisation API calls in producer-reachable code", n, 5)
+
+
+COUNTER_OPS = {"saturating_add", "wrapping_add", "checked_add", "add", "add_assign"}
+
+
+def consumer_state(ctx, rid):
+    """Items (one per file / document) reach the single printing thread in schedule order.  Whatever the consumer remembers from one item
+    changes what it does with the next, i.e. the result depends on the schedule and on which other files exist.  Allowed state in the
+    structs under ast_grep::print reachable from consume_items: a field set to a constant (latch: `matched = true`, `accept_all = true`),
+    a field counted up from itself (`committed_cnt`), and `&mut` method calls on fields of a generic type (the writer W, the inner
+    printer P).  Anything else — an offset, a path, a collection — is per-file data surviving the file."""
+    prog = ctx.prog
+    roots = [f.id for f in prog.find_fns(r"^<ast_grep::.* as ast_grep::utils::worker::Worker>::consume_items$")]
+    ctx.floor(rid, "consume_items implementations", len(roots), 4)
+    R = [prog.fns[x] for x in sorted(prog.reach(roots)) if x in prog.fns and prog.fns[x].crate == "ast_grep"]
+    ctx.floor(rid, "consumer-reachable cli functions", len(R), 30)
+
+    def printer_field(f, local, proj):
+        """the `.field|Owner` a place addresses when it goes through a reference parameter/capture to a struct of ast_grep::print"""
+        fields = [p for p in proj if isinstance(p, str) and p.startswith(".") and "|ast_grep::print::" in p and "{closure" not in p]
+        if not fields or "*" not in proj:
+            return None
+        if fields[-1].split("|")[1].endswith(("::Diffs", "::Diff", "::InteractiveDiff", "::Highlights")):
+            return None  # the item's own payload
+        return fields[-1]
+
+    n = 0
+    for f in R:
+        for bi in sorted(f.live_blocks):
+            for st in f.blocks[bi]["s"]:
+                if st[0] != "A" or not st[1][1]:
+                    continue
+                fld = printer_field(f, st[1][0], st[1][1])
+                if not fld:
+                    continue
+                n += 1
+                rv = st[2]
+                ok = rv[0] == "use" and rv[1][0] == "k"
+                why = "latched to a constant"
+                if not ok and rv[0] == "use":
+                    for o in f.trace_operand(rv[1]):
+                        if o.kind == "call" and o.ref.name in COUNTER_OPS and o.ref.args and any(
+                                r.kind in ("param", "local") and fld in r.proj for r in f.trace_operand(o.ref.args[0])):
+                            ok, why = True, "counted up from itself (%s)" % o.ref.name
+                        elif o.kind == "op" and o.ref[2][0] in ("bin", "checked") and str(o.ref[2][1]).startswith("Add") and any(
+                                r.kind in ("param", "local") and fld in r.proj for x in o.ref[2][2:4] for r in f.trace_operand(x)):
+                            ok, why = True, "counted up from itself"
+                ctx.ob(rid, "%s writes %s" % (f.id, fld.split("|")[0][1:] + " of " + fld.split("|")[1].rsplit("::", 1)[-1]), ok,
+                       why if ok else
+                       "the printing thread stores per-item data in %s and keeps it for the next item: what is printed/applied for a file then depends on which file "
+                       "happened to be delivered before it (thread schedule, other files in the tree)" % fld.split("|")[0][1:], where=f.loc(st[3]))
+        for c in f.calls:
+            if c.bb not in f.live_blocks or not c.args or c.args[0][0] == "k":
+                continue
+            ty = f.locals[c.args[0][1][0]]
+            if not ty.startswith("&mut "):
+                continue
+            for o in deep_roots(prog, f, c.args[0], TRANSPARENT):
+                if o.kind != "param":
+                    continue
+                fld = printer_field(f, o.ref, ("*",) + tuple(o.proj))
+                if not fld:
+                    continue
+                n += 1
+                generic = bool(re.match(r"^&mut (impl )?[A-Z]\w*$", ty)) or "dyn " in ty or "impl " in ty
+                ctx.ob(rid, "%s calls %s on %s" % (f.id, c.name, fld.split("|")[0][1:] + " of " + fld.split("|")[1].rsplit("::", 1)[-1]), generic,
+                       "the writer / inner printer (generic type %s)" % ty[5:] if generic else
+                       "a `&mut` method of the concrete type %s is called on a printer field: per-item data can accumulate across items" % ty[5:], where=f.loc(c.line),
+                       nontrivial=not generic)
+                break
+    ctx.floor(rid, "consumer-side writes to printer state", n, 8)
